@@ -759,11 +759,46 @@ func pickStmtLines(t *rapid.T, ls [][]string, label string) (int, int) {
 	return c.i, c.j
 }
 
-var treeMutations = []string{"subexpr-from-corpus", "subexpr-from-corpus", "subexpr-swap", "type-from-pool", "type-from-corpus", "graft-statement", "graft-statement", "wrap-statement", "hoist-statement", "dup-decl", "graft-decl", "unparen"}
+var treeMutations = []string{"const-fold", "const-fold", "subexpr-from-corpus", "subexpr-from-corpus", "subexpr-swap", "type-from-pool", "type-from-corpus", "graft-statement", "graft-statement", "wrap-statement", "hoist-statement", "dup-decl", "graft-decl", "unparen"}
+
+var (
+	foldConsts = []string{"0", "1", "2", "7", "8", "31", "32", "63", "64", "65", "255", "256", "0xFFFF", "0xFFFF_FFFF", "0x1_0000_0000",
+		"0x7FFF_FFFF_FFFF_FFFF", "0xFFFF_FFFF_FFFF_FFFF", "0x1_0000_0000_0000_0000", "0xFFFF_FFFF_FFFF_FFFF_FFFF_FFFF_FFFF_FFFF", "(0 - 1)", "(1 - 2)", "(1 - 1)"}
+	foldOps = []string{"+", "-", "*", "/", "%", "<<", ">>", "&", "|", "^", "~mod+", "~mod-", "~mod*", "~mod<<", "~sat+", "~sat-", "<", "<=", "==", "<>", ">=", ">", "and", "or"}
+)
+
+// constFoldExpr builds the tokens of "(A op B)" over edge constants, nested up to depth.
+func constFoldExpr(t *rapid.T, label string, depth int) []string {
+	operand := func(side string) []string {
+		if depth > 0 && uni(t, label+side+"_nest", 3) == 0 {
+			return constFoldExpr(t, label+side, depth-1)
+		}
+		return lexStrings(pickFrom(t, label+side, foldConsts))
+	}
+	out := []string{"("}
+	out = append(out, operand("_l")...)
+	out = append(out, pickFrom(t, label+"_op", foldOps))
+	out = append(out, operand("_r")...)
+	if uni(t, label+"_as", 4) == 0 {
+		out = append(out, ")", "as", "base", ".", pickFrom(t, label+"_ty", []string{"u8", "u16", "u32", "u64"}))
+		return append([]string{"("}, append(out, ")")...)
+	}
+	return append(out, ")")
+}
+
+func lexStrings(s string) []string { return lex([]byte(s)) }
 
 func mutateTree(t *rapid.T, toks []string, label string) ([]string, string) {
 	op := pickFrom(t, label+"_op", treeMutations)
 	switch op {
+	case "const-fold":
+		// an expression (or one operand of an operator) is replaced by an operator applied to two edge constants:
+		// the checker folds constant operands at compile time (division and modulus by zero, shifts by huge or
+		// negative counts, results beyond 64 bits, every operator incl. the modular / saturating ones)
+		i, j := pickExprSpan(t, toks, label+"_a")
+		if i >= 0 {
+			return splice(toks, i, j, constFoldExpr(t, label+"_cf", uni(t, label+"_cfd", 3))...), op
+		}
 	case "subexpr-from-corpus":
 		i, j := pickExprSpan(t, toks, label+"_a")
 		d := pickCorpus(t, label+"_donor", 60)
